@@ -35,10 +35,10 @@ says; its final observation is judged by the same predicate (`spec_model`).
 open Lean AutoVerif.Codec
 namespace AutoVerif.C14
 
-/-- rebuild the caller table as a flat list lookup (the model updates it by closure chaining) -/
+/-- rebuild the caller table as a flat array lookup (the model updates it by closure chaining) -/
 def normalize (cfg : Cfg) (s : State) : State :=
-  let l := (List.range cfg.ncallers).map s.callers
-  { s with callers := fun k => l.getD k {} }
+  let a := ((List.range cfg.ncallers).map s.callers).toArray
+  { s with callers := fun k => a.getD k {} }
 
 def callerLabels (g : Nat) : List Label :=
   [.subAdd g, .subLoopEnd g, .subCtx g, .subRLock g, .subClosed g, .subSend g, .subSelCtx g, .subSelStop g,
@@ -137,6 +137,8 @@ structure Search where
   next : Array (Option Nat)  -- next event of the same goroutine
   pmu : Array (Option Nat)   -- previous event logged under wg.mu (for events logged under wg.mu)
   recvs : Array Nat          -- groups of the items runQueuing received, in its order
+  rqTid : Option Nat         -- goroutine number of runQueuing
+  rqFull : Array Bool        -- for an event of runQueuing: its next notification attempt (from this event on) finds the channel full
 
 structure SearchSt where
   failed : Std.HashSet (Array Nat) := {}
@@ -178,7 +180,18 @@ def mkSearch (cfg : Cfg) (evs : Array Ev) : Search × Array (Option Nat) := Id.r
       lastMu := some i
     else pmu := pmu.push none
     if e.pt == "rq.recv" || e.pt == "rq.drain-recv" then recvs := recvs.push e.a
-  return ({ cfg := cfg, evs := evs, thr := thr, prev := prev, next := next, pmu := pmu, recvs := recvs }, heads)
+  let mut rqFull : Array Bool := Array.replicate evs.size false
+  let mut cur := false
+  for k in [0:evs.size] do
+    let i := evs.size - 1 - k
+    let e := evs[i]!
+    if e.thread == (2, 0) then
+      if e.pt == "rq.notify-full" then cur := true
+      else if e.pt == "rq.notified" then cur := false
+      rqFull := rqFull.set! i cur
+  let rqTid := (ids.find? (fun p => p.1 == (2, 0))).map (·.2)
+  return ({ cfg := cfg, evs := evs, thr := thr, prev := prev, next := next, pmu := pmu, recvs := recvs,
+            rqTid := rqTid, rqFull := rqFull }, heads)
 
 partial def firstPending (done : Array Bool) (i : Nat) : Nat :=
   if i < done.size && done[i]! then firstPending done (i + 1) else i
@@ -206,6 +219,14 @@ partial def dfs (sr : Search) (budget : Nat) (t : TState) (heads : Array (Option
     (sr.evs[h]!.pt != "do.sent" ||
       (let n := t.s.accepted.length
        n ≥ sr.recvs.size || sr.recvs[n]! == sr.evs[h]!.a)) &&
+    -- look-ahead (excludes no model path either): only runQueuing puts a token on `chInputNotify` and only
+    -- "rp.notify" takes it; if runQueuing's NEXT attempt reports the channel full, the token that is there
+    -- now must still be there then (in a crowd of callers the log entry of the send that runQueuing is
+    -- waiting for comes late, and the search would otherwise let the processing loop run ahead)
+    (sr.evs[h]!.pt != "rp.notify" ||
+      (match sr.rqTid.bind (fun q => heads[q]!) with
+       | some qh => !sr.rqFull[qh]!
+       | none => true)) &&
     -- look-ahead (excludes no model path either): `queueClosed` is written under the write lock, so it
     -- cannot change between a submitter's RLock and its closed-check: the check's reported outcome
     -- must already hold when the read lock is taken
@@ -224,11 +245,24 @@ partial def dfs (sr : Search) (budget : Nat) (t : TState) (heads : Array (Option
   -- (A heuristic for the order of exploration only; every alternative is still tried.)
   let beats (y x : Nat × TState) : Bool :=
     (tstep sr.cfg x.2 sr.evs[y.1]!).isNone && (tstep sr.cfg y.2 sr.evs[x.1]!).isSome
-  let pref := if en.length ≤ 1 then en else
-    let unbeaten := en.filter fun x => !(en.any fun y => y.1 != x.1 && beats y x)
-    unbeaten ++ en.filter fun x => !(unbeaten.any fun u => u.1 == x.1)
+  -- (evaluated lazily: whether a candidate is beaten is only looked at when its turn comes; the order of
+  -- exploration is: the unbeaten candidates in log order, then the beaten ones in log order)
   let mut tried := 0
-  for (h, t') in pref do
+  let mut beaten : Array (Nat × TState) := #[]
+  for x in en do
+    if en.length > 1 && (en.any fun y => y.1 != x.1 && beats y x) then
+      beaten := beaten.push x
+    else
+      let (h, t') := x
+      let heads' := heads.set! sr.thr[h]! sr.next[h]!
+      let done' := done.set! h true
+      let first' := firstPending done' first
+      if tried > 0 then modify fun st => { st with backtracks := st.backtracks + 1 }
+      tried := tried + 1
+      match ← dfs sr budget t' heads' done' first' (placed + 1) (h :: acc) with
+      | some w => return some w
+      | none => pure ()
+  for (h, t') in beaten do
     let heads' := heads.set! sr.thr[h]! sr.next[h]!
     let done' := done.set! h true
     let first' := firstPending done' first
@@ -251,10 +285,23 @@ structure TraceVerdict where
 
 def showEv (e : Ev) : String := s!"{e.pt}({e.a},{e.b},{e.c})"
 
+/-- node budget of the search.  A node costs time (and, when it fails, memory) proportional to the number
+of goroutines in the log (one search thread per caller, reader and worker execution; one candidate per
+thread that may move, each tried on a state with `ncallers` entries).  The budget of the traces the
+generators produced so far (up to 4 callers, up to ~128 goroutines) is the constant it always was; for a
+WIDE trace (a crowd of callers, hundreds of worker executions) it shrinks with the 4th power of the width
+(nodes x cost per node x candidates per node stays within what a narrow trace may use), but
+never below four nodes per event (a log that is nearly a path needs one node per event).  A search that
+runs out of budget decides nothing. -/
+def searchBudget (cfg : Cfg) (threads n : Nat) : Nat :=
+  let w := max threads (32 * cfg.ncallers)
+  4 * n + (3000000 + 500 * n) * (128 * 128 * 128 * 128) / max (128 * 128 * 128 * 128) (w * w * w * w)
+
 def checkTrace (cfg : Cfg) (evs : Array Ev) : TraceVerdict :=
   let (sr, heads) := mkSearch cfg evs
   let t0 : TState := { s := normalize cfg (init cfg) }
-  let (res, st) := (dfs sr (3000000 + 500 * evs.size) t0 heads (Array.replicate evs.size false) 0 0 []).run {}
+  let budget := searchBudget cfg heads.size evs.size
+  let (res, st) := (dfs sr budget t0 heads (Array.replicate evs.size false) 0 0 []).run {}
   match res with
   | some order =>
     -- the decision is taken by the checker the theorem `trace_sound` is about
@@ -264,7 +311,7 @@ def checkTrace (cfg : Cfg) (evs : Array Ev) : TraceVerdict :=
     else { ok := false, msg := "internal: proposed order rejected by Spec.traceOk", nodes := st.nodes }
   | none =>
     let e := evs.getD st.stuckAt default
-    let out := decide (st.nodes > 3000000 + 500 * evs.size)
+    let out := decide (st.nodes > budget)
     let why := if out then "search budget exhausted; " else ""
     { ok := false, inconclusive := out, nodes := st.nodes, backtracks := st.backtracks,
       msg := s!"{why}no admissible reordering of the log is a model path: stuck after {st.deepest} of {evs.size} events; first event that cannot be placed: #{st.stuckAt} {showEv e} (goroutine {e.thread}); context: {(List.range 6).map fun k => showEv (evs.getD (st.stuckAt + k - 2) default)}" }
@@ -309,6 +356,8 @@ def dopOf (j : Json) : R DOp := do
   | "q-add" => pure (.qAdd (← listOf asNat (fieldD j "vs" .null)))
   | "q-pop" => pure .qPop
   | "q-len" => pure .qLen
+  | "watch" => pure (.watch g)
+  | "poll-held" => pure (.pollHeld g)
   | _ => throw s!"unknown direct op {op}"
 
 def doutOf (j : Json) : R DOut := do
@@ -336,6 +385,7 @@ def showDOp : DOp → String
   | .submit g v => s!"submit(g{g},job{v})" | .submitCancelled g => s!"submit-cancelled(g{g})"
   | .finish g v => s!"finish(g{g},job{v})" | .remove g => s!"remove(g{g})" | .results g => s!"results(g{g})"
   | .poll g => s!"poll(g{g})" | .qAdd vs => s!"q-add{vs}" | .qPop => "q-pop" | .qLen => "q-len"
+  | .watch g => s!"watch(g{g})" | .pollHeld g => s!"poll-held(g{g})"
 
 /-- which branches of the code the calls go through, according to the model (for the evidence) -/
 def directTags (workers : Nat) : DState → List DOp → List String
@@ -350,7 +400,14 @@ def directTags (workers : Nat) : DState → List DOp → List String
      | .poll g => if (d.store.notify g).isNone then ["poll:entry-missing"] else []
      | .submit g _ => if (d.store.data g).isNone then ["do:creates-entries"] else ["do:entries-exist"]
      | .qPop => if d.queue.isEmpty then ["queue:pop-empty"] else ["queue:pop"]
-     | .remove g => if ((d.store.data g).getD []).isEmpty then ["remove:nothing-stored"] else ["remove:wipes-results"]
+     | .remove g => (if ((d.store.data g).getD []).isEmpty then ["remove:nothing-stored"] else ["remove:wipes-results"]) ++
+       (if d.held g == .attached then ["remove:cuts-off-kept-channel"] else []) ++
+       (if (List.range 2048).any (fun k => k != g && d.held k == .attached && (d.store.notify k) == some false &&
+            ((d.store.data k).getD []).isEmpty) then ["remove:while-another-group-waits"] else [])
+     | .pollHeld g => (match d.held g with
+       | .none => ["poll-held:no-channel"]
+       | .attached => if (d.store.notify g) == some true then ["poll-held:woken"] else ["poll-held:nothing-yet"]
+       | .detached b => if b then ["poll-held:dead-channel-with-token"] else ["poll-held:dead-channel"])
      | _ => []) ++ directTags workers (dstep workers d op).2 ops
 
 def firstDiff (ops : List DOp) (a b : List DOut) : String :=
@@ -389,7 +446,13 @@ def handleDirect (input impl : Json) : R Reply := do
   let si := directSpec workers ops outs && !crashed && leaked == 0
   let sm := directSpec workers ops want
   let agree := want == outs && !crashed && leaked == 0
-  let tags := (directTags workers {} ops).eraseDups
+  let groups := (ops.filterMap fun o => match o with
+    | .submit g _ => some g | .watch g => some g | _ => none).eraseDups
+  let longest : Nat := (outs.map fun o => match o with
+    | .vals l => l.length | _ => 0).foldl max 0
+  let tags := (directTags workers {} ops).eraseDups ++
+    (if groups.length > 64 then ["direct:groups>64"] else []) ++
+    (if longest > 256 then ["direct:results-in-one-call>256"] else [])
   pure { agree := agree, specModel := sm, specImpl := si,
          diff := if agree then "" else if crashed then "the run crashed" else if leaked != 0 then s!"{leaked} goroutines left after Stop"
                  else firstDiff ops want outs,
@@ -429,8 +492,10 @@ def handle (input impl : Json) : R Reply := do
                      jobs := fun g => jobs.getD g 0, blocking := fun _ => kind == "block",
                      panics := fun j => (panicAt.getD j.grp []).contains j.idx }
   let total := jobs.foldl (· + ·) 0
-  -- the model is run on every case of moderate size (a run costs ~30 scheduler steps per job)
-  let runModel := decide (total ≤ 400)
+  -- the model is run on every case of moderate size (a run costs ~30 scheduler steps per job, and the
+  -- scheduler looks at every caller's labels in every step); VOLUME cases beyond that (crowds of callers,
+  -- thousands of jobs) are judged by the black-box clauses `spec` alone
+  let runModel := decide (total ≤ 400) && decide (jobs.length ≤ 16)
   let want := if runModel then modelRun cfg mode k salt else got
   let deterministic := quiet || mode == "stop-before" || mode == "cancel-before"
   let proj (o : Obs) := (o.callers.map fun c => (c.returned, c.delivered.length, c.anon, c.started.length,
